@@ -8,54 +8,209 @@ Only theorems and non-vacuity examples; helper lemmas live in `Lemmas/C06*.lean`
 namespace CryoCat.C06
 open Real
 
-/-! ### translator obligations: the anchored source expressions are the documented ones -/
+/-! ### translator obligations: the anchored source is the documented one
+
+Every function the model stands for is anchored by a normalised dump of its WHOLE body (header with the parameter
+defaults, one string per statement in source order, `| ` marks nesting, locals alpha-normalised `v0, v1, …`), so
+an inserted statement, a re-assignment, a changed default or a swapped `return` breaks a theorem below, while a
+renamed local variable does not. -/
 
 theorem anchors_ok : Gen.C06.anchorsOk = true := by decide
 
-/-- `angular_distance`: `2·arccos(min(|q1·q2|, 1))` in degrees, on `as_quat()` of both rotations -/
+/-- `angular_distance`: ndarray inputs go through `from_euler(convention, …, degrees)`, the `c_symmetry > 1` block is
+the only statement between the dispatch and `as_quat`; a shape mismatch prints and returns `None`; then
+`2·arccos(min(|q1·q2|, 1))` in degrees, `dist = 1 − (q1·q2)²` snapped below 1e-7, returned in this order -/
 theorem ang_expr_documented :
-    Gen.C06.angExpr = "np.degrees(2*np.arccos(np.minimum(np.abs(np.sum(q1*q2,axis=1)),1.0)))"
-    ∧ Gen.C06.quatExprs = ["np.array(rot1.as_quat(),ndmin=2)", "np.array(rot2.as_quat(),ndmin=2)"]
-    ∧ Gen.C06.dist2Expr = "1-np.power(np.sum(q1*q2,1),2)" := by decide
+    Gen.C06.bodyAngular = ["def angular_distance(input_rot1, input_rot2, convention='zxz', degrees=True, c_symmetry=1)",
+      "if isinstance(input_rot1, np.ndarray):",
+      "| v0 = srot.from_euler(convention, input_rot1, degrees=degrees)",
+      "else:",
+      "| v0 = input_rot1",
+      "if isinstance(input_rot2, np.ndarray):",
+      "| v1 = srot.from_euler(convention, input_rot2, degrees=degrees)",
+      "else:",
+      "| v1 = input_rot2",
+      "if c_symmetry > 1:",
+      "| v2 = v0.as_euler(convention, degrees=degrees)",
+      "| v3 = v1.as_euler(convention, degrees=degrees)",
+      "| v4 = 360.0 / c_symmetry",
+      "| v2[:, 0] = np.mod(v2[:, 0], v4)",
+      "| v3[:, 0] = np.mod(v3[:, 0], v4)",
+      "| v0 = srot.from_euler(convention, v2, degrees=degrees)",
+      "| v1 = srot.from_euler(convention, v3, degrees=degrees)",
+      "v5 = np.array(v0.as_quat(), ndmin=2)",
+      "v6 = np.array(v1.as_quat(), ndmin=2)",
+      "if v5.shape != v6.shape:",
+      "| print('The size of input rotations differ!!!')",
+      "| return",
+      "v7 = np.degrees(2 * np.arccos(np.minimum(np.abs(np.sum(v5 * v6, axis=1)), 1.0)))",
+      "v7 = v7.astype(float)",
+      "v8 = 1 - np.power(np.sum(v5 * v6, 1), 2)",
+      "v8[v8 < 1e-07] = 0",
+      "return (v7, v8)"] := by decide
 
-/-- `cone_distance`: normalised images of (0,0,1), clamped dot product, arccos in degrees -/
+/-- `cone_distance`: normalised images of (0,0,1), clamped dot product, arccos in degrees — and nothing else -/
 theorem cone_expr_documented :
-    Gen.C06.coneExpr = "np.degrees(np.arccos(np.maximum(np.minimum(np.sum(vec1*vec2,axis=1),1.0),-1.0)))"
-    ∧ Gen.C06.conePoint = "[0,0,1.0]"
-    ∧ Gen.C06.coneVec1 = ["np.array(input_rot1.apply(point),ndmin=2)", "vec1/vec1_n[:,np.newaxis]", "np.linalg.norm(vec1,axis=1)"]
-    ∧ Gen.C06.coneVec2 = ["np.array(input_rot2.apply(point),ndmin=2)", "vec2/vec2_n[:,np.newaxis]", "np.linalg.norm(vec2,axis=1)"] := by decide
+    Gen.C06.bodyCone = ["def cone_distance(input_rot1, input_rot2)",
+      "v0 = [0, 0, 1.0]",
+      "v1 = np.array(input_rot1.apply(v0), ndmin=2)",
+      "v2 = np.array(input_rot2.apply(v0), ndmin=2)",
+      "v3 = np.linalg.norm(v1, axis=1)",
+      "v1 = v1 / v3[:, np.newaxis]",
+      "v4 = np.linalg.norm(v2, axis=1)",
+      "v2 = v2 / v4[:, np.newaxis]",
+      "v5 = np.degrees(np.arccos(np.maximum(np.minimum(np.sum(v1 * v2, axis=1), 1.0), -1.0)))",
+      "return v5"] := by decide
 
-/-- `inplane_distance`: first Euler angle, snapped below `ANGLE_DEGREES_TOL = 1e-11`, shifted by 180,
-absolute difference folded at 180 -/
+/-- `inplane_distance`: first Euler angle, snapped below `ANGLE_DEGREES_TOL = 1e-11`, shifted by 180, (symmetry
+block only for `c_symmetry > 1`), absolute difference folded at 180 -/
 theorem inplane_expr_documented :
-    Gen.C06.inplaneExprs = ["np.abs(phi1-phi2)", "np.where(inplane_angle>180.0,np.abs(inplane_angle-360.0),inplane_angle)"]
-    ∧ Gen.C06.inplanePhi = ["np.array(input_rot1.as_euler(convention,degrees=degrees),ndmin=2)[:,0]",
-        "np.where(abs(phi1)<ANGLE_DEGREES_TOL,0.0,phi1)", "Add:180.0",
-        "np.array(input_rot2.as_euler(convention,degrees=degrees),ndmin=2)[:,0]",
-        "np.where(abs(phi2)<ANGLE_DEGREES_TOL,0.0,phi2)", "Add:180.0"]
+    Gen.C06.bodyInplane = ["def inplane_distance(input_rot1, input_rot2, convention='zxz', degrees=True, c_symmetry=1)",
+      "v0 = np.array(input_rot1.as_euler(convention, degrees=degrees), ndmin=2)[:, 0]",
+      "v1 = np.array(input_rot2.as_euler(convention, degrees=degrees), ndmin=2)[:, 0]",
+      "v0 = np.where(abs(v0) < ANGLE_DEGREES_TOL, 0.0, v0)",
+      "v1 = np.where(abs(v1) < ANGLE_DEGREES_TOL, 0.0, v1)",
+      "v0 += 180.0",
+      "v1 += 180.0",
+      "if c_symmetry > 1:",
+      "| v2 = 360.0 / c_symmetry",
+      "| v0 = np.mod(v0, v2)",
+      "| v1 = np.mod(v1, v2)",
+      "v3 = np.abs(v0 - v1)",
+      "v3 = np.where(v3 > 180.0, np.abs(v3 - 360.0), v3)",
+      "return v3"]
     ∧ Gen.C06.angleTolNum = 1 ∧ Gen.C06.angleTolDen = 100000000000 := by decide
 
-/-- `euler_angles_to_normals` divides every row by ITS OWN norm (`axis=1, keepdims=True`) -/
+/-- `euler_angles_to_normals` divides every row by ITS OWN norm (`axis=1, keepdims=True`) of the z-axis image that
+`visualize_angles(angles, plot_rotations=False)` → `visualize_rotations` computes from `from_euler('zxz', degrees=True)`
+applied to `(0, 0, radius)` -/
 theorem normals_expr_documented :
-    Gen.C06.normalsExprs = ["visualize_angles(angles,plot_rotations=False)",
-      "np.linalg.norm(points,axis=1,keepdims=True)", "points/n_length"]
-    ∧ Gen.C06.visExprs = ["np.array([0.0,0.0,radius])", "np.array(rotations.apply(starting_point),ndmin=2)",
-      "srot.from_euler('zxz',angles=angles,degrees=True)", "visualize_rotations(rotations,plot_rotations,color_map)"] := by decide
+    Gen.C06.bodyNormals = ["def euler_angles_to_normals(angles)",
+      "v0 = visualize_angles(angles, plot_rotations=False)",
+      "v1 = np.linalg.norm(v0, axis=1, keepdims=True)",
+      "v2 = v0 / v1",
+      "return v2"]
+    ∧ Gen.C06.bodyVisAngles = ["def visualize_angles(angles, plot_rotations=True, color_map=None)",
+      "v0 = srot.from_euler('zxz', angles=angles, degrees=True)",
+      "v1 = visualize_rotations(v0, plot_rotations, color_map)",
+      "return v1"]
+    ∧ Gen.C06.bodyVisRot = ["def visualize_rotations(rotations, plot_rotations=True, color_map=None, marker_size=20, alpha=1.0, radius=1.0)",
+      "v0 = np.array([0.0, 0.0, radius])",
+      "v1 = np.array(rotations.apply(v0), ndmin=2)",
+      "if plot_rotations: <collapsed: rebinds=[] exits=0>",
+      "return v1"] := by decide
 
-/-- `normals_to_euler_angles`: θ = atan2(ρ, z), ψ = 90° + atan2(y, x), ψ := 0 only for x = y = 0 -/
+/-- `normals_to_euler_angles`: DataFrame/ndarray dispatch (anything else raises), row-wise normalisation,
+θ = atan2(ρ, z), ψ = 90° + atan2(y, x), ψ := 0 only for x = y = 0, random φ, column order by `output_order` -/
 theorem n2e_expr_documented :
-    Gen.C06.n2eExprs = ["normals/np.linalg.norm(normals,axis=1)[:,np.newaxis]",
-      "np.degrees(np.arctan2(np.sqrt(normals[:,0]**2+normals[:,1]**2),normals[:,2]))",
-      "90+np.degrees(np.arctan2(normals[:,1],normals[:,0]))",
-      "np.where((normals[:,0]==0)&(normals[:,1]==0))", "0"] := by decide
+    Gen.C06.bodyN2e = ["def normals_to_euler_angles(input_normals, output_order='zxz')",
+      "if isinstance(input_normals, pd.DataFrame):",
+      "| v0 = input_normals.loc[:, ['x', 'y', 'z']].values",
+      "elif isinstance(input_normals, np.ndarray):",
+      "| v0 = input_normals",
+      "else:",
+      "| raise UserInputError('The input_normals have to be either pandas dataFrame or numpy array')",
+      "v0 = v0 / np.linalg.norm(v0, axis=1)[:, np.newaxis]",
+      "v1 = np.degrees(np.arctan2(np.sqrt(v0[:, 0] ** 2 + v0[:, 1] ** 2), v0[:, 2]))",
+      "v2 = 90 + np.degrees(np.arctan2(v0[:, 1], v0[:, 0]))",
+      "v3 = np.where((v0[:, 0] == 0) & (v0[:, 1] == 0))",
+      "v2[v3] = 0",
+      "v4 = np.random.rand(v0.shape[0]) * 360",
+      "if output_order == 'zzx':",
+      "| v5 = np.column_stack((v4, v2, v1))",
+      "else:",
+      "| v5 = np.column_stack((v4, v1, v2))",
+      "return v5"] := by decide
 
-/-- `compare_rotations` / `cone_inplane_distance` only forward to the three primitives -/
+/-- `compare_rotations` / `cone_inplane_distance` only forward to the three primitives; EVERY `return` of
+`compare_rotations` in order -/
 theorem compare_expr_documented :
-    Gen.C06.compareExprs = ["angular_distance(angles1,angles2,c_symmetry=c_symmetry)[0]",
-      "cone_inplane_distance(angles1,angles2,c_symmetry=c_symmetry)", "cone_distance(rot1,rot2)",
-      "inplane_distance(rot1,rot2,convention,degrees,c_symmetry)"]
-    ∧ Gen.C06.returnExprs = ["(dist_degrees,dist_degrees_normals,dist_degrees_inplane)",
-      "np.column_stack((phi,psi,theta))", "np.column_stack((phi,theta,psi))"] := by decide
+    Gen.C06.bodyCompare = ["def compare_rotations(angles1, angles2, c_symmetry=1, rotation_type='all')",
+      "v0 = angular_distance(angles1, angles2, c_symmetry=c_symmetry)[0]",
+      "v1, v2 = cone_inplane_distance(angles1, angles2, c_symmetry=c_symmetry)",
+      "if rotation_type == 'all':",
+      "| return (v0, v1, v2)",
+      "elif rotation_type == 'angular_distance':",
+      "| return v0",
+      "elif rotation_type == 'cone_distance':",
+      "| return v1",
+      "elif rotation_type == 'in_plane_distance':",
+      "| return v2",
+      "else:",
+      "| raise UserInputError(f'The rotation type {rotation_type} is not supported.')"]
+    ∧ Gen.C06.bodyConeInplane = ["def cone_inplane_distance(input_rot1, input_rot2, convention='zxz', degrees=True, c_symmetry=1)",
+      "if isinstance(input_rot1, np.ndarray):",
+      "| v0 = srot.from_euler(convention, input_rot1, degrees=degrees)",
+      "else:",
+      "| v0 = input_rot1",
+      "if isinstance(input_rot2, np.ndarray):",
+      "| v1 = srot.from_euler(convention, input_rot2, degrees=degrees)",
+      "else:",
+      "| v1 = input_rot2",
+      "v2 = cone_distance(v0, v1)",
+      "v3 = inplane_distance(v0, v1, convention, degrees, c_symmetry)",
+      "return (v2, v3)"] := by decide
+
+/-- which primitive each `rotation_type` returns (resolved through the callee that computed the returned name, not
+through the name), the final `else` raises -/
+theorem compare_branches_documented :
+    Gen.C06.compareBranches = [("all", ["ang", "cone", "inp"]), ("angular_distance", ["ang"]),
+      ("cone_distance", ["cone"]), ("in_plane_distance", ["inp"])]
+    ∧ Gen.C06.compareElse = "raise UserInputError" := by decide
+
+/-- column order of `normals_to_euler_angles`: "zzx" → (φ, ψ, θ), anything else → (φ, θ, ψ) -/
+theorem n2e_orders_documented :
+    Gen.C06.n2eOrders = [("zzx", ["phi", "psi", "theta"]), ("*", ["phi", "theta", "psi"])] := by decide
+
+/-- the signature defaults the statement depends on: `rotation_type="all"`, `output_order="zxz"` (the other defaults
+— `convention='zxz'`, `degrees=True`, `c_symmetry=1`, `radius=1.0` — are the headers of the body dumps above) -/
+theorem defaults_documented :
+    Gen.C06.rotationTypeDefault = "all" ∧ Gen.C06.outputOrderDefault = "zxz"
+    ∧ Gen.C06.bodyCompare.head? = some "def compare_rotations(angles1, angles2, c_symmetry=1, rotation_type='all')"
+    ∧ Gen.C06.bodyAngular.head? = some "def angular_distance(input_rot1, input_rot2, convention='zxz', degrees=True, c_symmetry=1)"
+    ∧ Gen.C06.bodyInplane.head? = some "def inplane_distance(input_rot1, input_rot2, convention='zxz', degrees=True, c_symmetry=1)"
+    ∧ Gen.C06.bodyConeInplane.head? = some "def cone_inplane_distance(input_rot1, input_rot2, convention='zxz', degrees=True, c_symmetry=1)"
+    ∧ Gen.C06.bodyN2e.head? = some "def normals_to_euler_angles(input_normals, output_order='zxz')"
+    ∧ Gen.C06.bodyVisRot.head? = some "def visualize_rotations(rotations, plot_rotations=True, color_map=None, marker_size=20, alpha=1.0, radius=1.0)" := by decide
+
+/-! ### `compare_rotations`: every `rotation_type` returns the primitive of its name; anything else is rejected -/
+section compare
+variable {α : Type}
+
+/-- `rotation_type="all"` (also the default): the triple (angular, cone, in-plane) in this order -/
+theorem compareRotations_all (v : Prims α) :
+    compareRotations Gen.C06.compareBranches "all" v = some [v.ang, v.cone, v.inp]
+    ∧ compareRotations Gen.C06.compareBranches Gen.C06.rotationTypeDefault v = some [v.ang, v.cone, v.inp] := ⟨rfl, rfl⟩
+
+/-- each single-value branch returns exactly the primitive it is named after -/
+theorem compareRotations_single (v : Prims α) :
+    compareRotations Gen.C06.compareBranches "angular_distance" v = some [v.ang]
+    ∧ compareRotations Gen.C06.compareBranches "cone_distance" v = some [v.cone]
+    ∧ compareRotations Gen.C06.compareBranches "in_plane_distance" v = some [v.inp] := ⟨rfl, rfl, rfl⟩
+
+/-- any other `rotation_type` raises `UserInputError` (the model's `none`) -/
+theorem compareRotations_unsupported (t : String) (v : Prims α)
+    (h : t ∉ ["all", "angular_distance", "cone_distance", "in_plane_distance"]) :
+    compareRotations Gen.C06.compareBranches t v = none := by
+  simp only [List.mem_cons, List.not_mem_nil, or_false, not_or] at h
+  obtain ⟨h1, h2, h3, h4⟩ := h
+  have e : ∀ s : String, s ≠ t → (s == t) = false := fun s hs => by simpa using hs
+  simp only [compareRotations, Gen.C06.compareBranches, List.find?,
+    e "all" (Ne.symm h1), e "angular_distance" (Ne.symm h2), e "cone_distance" (Ne.symm h3), e "in_plane_distance" (Ne.symm h4)]
+
+/-- column order of `normals_to_euler_angles`: `"zzx"` gives (φ, ψ, θ); the default and every other string (φ, θ, ψ) -/
+theorem n2eColumns_spec (o : String) :
+    n2eColumns Gen.C06.n2eOrders "zzx" = ["phi", "psi", "theta"]
+    ∧ n2eColumns Gen.C06.n2eOrders Gen.C06.outputOrderDefault = ["phi", "theta", "psi"]
+    ∧ (o ≠ "zzx" → n2eColumns Gen.C06.n2eOrders o = ["phi", "theta", "psi"]) := by
+  refine ⟨rfl, rfl, fun h => ?_⟩
+  have e : ("zzx" == o) = false := by simpa using Ne.symm h
+  by_cases hs : o = "*"
+  · subst hs; rfl
+  · have e2 : ("*" == o) = false := by simpa using Ne.symm hs
+    simp only [n2eColumns, Gen.C06.n2eOrders, List.find?, e, e2]
+    rfl
+end compare
 
 /-! ### quaternion algebra (any commutative ring): what the distance is a function of -/
 section ring
@@ -99,6 +254,30 @@ theorem toM3_eq_iff {α : Type} [Field α] [LinearOrder α] [IsStrictOrderedRing
 /-! ### the angular distance over ℝ (`Real.arccos`), for ALL pairs / triples of unit quaternions -/
 section real
 variable (at2 : ℝ → ℝ → ℝ)
+
+/-- **what the clamp `np.minimum(|q1·q2|, 1.0)` provides**: the argument handed to `arccos` lies in [0, 1] for ANY two
+quaternions — unit or not, exact or rounded — so the range clause [0°, 180°] holds without a hypothesis on the inputs
+(and in floating point `arccos` never sees 1 + 2⁻⁵², the NaN of defect D22) -/
+theorem absDot_clamp {β : Type} [Field β] [LinearOrder β] [IsStrictOrderedRing β] (p q : Q4 β) :
+    0 ≤ absDot p q ∧ absDot p q ≤ 1 ∧ (qdot p q * qdot p q ≤ 1 → absDot p q = |qdot p q|) := by
+  simp only [absDot, absv_eq_abs]
+  refine ⟨le_min (abs_nonneg _) zero_le_one, min_le_right _ _, fun h => min_eq_left ?_⟩
+  have : |qdot p q| * |qdot p q| ≤ 1 := by rw [abs_mul_abs_self]; exact h
+  nlinarith [abs_nonneg (qdot p q)]
+
+/-- the shape test: two batches of different size give `None`, equal sizes give one distance per pair, each the
+distance of that pair -/
+theorem angDistBatch_spec (ps qs : List (Q4 ℝ)) :
+    (ps.length ≠ qs.length → angDistBatch (realLibm at2) ps qs = none)
+    ∧ (ps.length = qs.length → ∃ ds, angDistBatch (realLibm at2) ps qs = some ds ∧ ds.length = ps.length
+        ∧ ∀ i (h1 : i < ps.length) (h2 : i < qs.length) (h3 : i < ds.length),
+            ds[i] = angDist (realLibm at2) ps[i] qs[i]) := by
+  constructor
+  · intro h; simp [angDistBatch, h]
+  · intro h
+    refine ⟨(ps.zip qs).map fun pq => angDist (realLibm at2) pq.1 pq.2, by simp [angDistBatch, h], by simp [h], ?_⟩
+    intro i h1 h2 h3
+    simp
 
 /-- it lies in [0, 180] degrees (for any two quaternions, unit or not) -/
 theorem angDist_range (p q : Q4 ℝ) : 0 ≤ angDist (realLibm at2) p q ∧ angDist (realLibm at2) p q ≤ 180 := by
@@ -241,10 +420,49 @@ theorem inplane_symm (tol p1 p2 : α) : inplane tol p1 p2 = inplane tol p2 p1 :=
   simp only [inplane, absv_eq_abs]
   rw [abs_sub_comm]
 
-/-- one output row per orientation -/
-theorem normals_one_per_orientation (L : Libm α) (pts : List (V3 α)) :
-    (normalsRowwise L pts).length = pts.length := by
-  simp [normalsRowwise]
+/-- `as_euler` may write the in-plane angle of one orientation as +180 or as −180: the distance of the two is 0 -/
+theorem inplane_wrap (tol : α) (h : tol ≤ 180) : inplane tol 180 (-180) = 0 ∧ inplane tol (-180) 180 = 0 := by
+  have s1 : snap tol (180 : α) = 180 := by
+    unfold snap; rw [if_neg]; rw [absv_eq_abs, abs_of_nonneg (by norm_num)]; exact not_lt.2 h
+  have s2 : snap tol (-180 : α) = -180 := by
+    unfold snap; rw [if_neg]; rw [absv_eq_abs, abs_neg, abs_of_nonneg (by norm_num)]; exact not_lt.2 h
+  constructor
+  · simp only [inplane, s1, s2, absv_eq_abs]
+    norm_num
+  · simp only [inplane, s1, s2, absv_eq_abs]
+    norm_num
+
+/-- **vanishes for equal orientations, robustly**: when the first Euler angles of the two orientations agree up to `e`
+(the same rotation read back by `as_euler` from two quaternions that differ by rounding or by sign), the in-plane
+distance is at most `e + 2·tol` — the snap moves either angle by less than `tol` -/
+theorem inplane_le_of_close (tol p1 p2 e : α) (ht : 0 ≤ tol) (h : |p1 - p2| ≤ e) (he : e + 2 * tol ≤ 180) :
+    0 ≤ inplane tol p1 p2 ∧ inplane tol p1 p2 ≤ e + 2 * tol := by
+  have sn : ∀ p : α, |snap tol p - p| ≤ tol := by
+    intro p; unfold snap; split
+    · rename_i hp; rw [absv_eq_abs] at hp; rw [zero_sub, abs_neg]; exact hp.le
+    · simpa using ht
+  have key : |snap tol p1 + 180 - (snap tol p2 + 180)| ≤ e + 2 * tol := by
+    have e1 : snap tol p1 + 180 - (snap tol p2 + 180) = (snap tol p1 - p1) - (snap tol p2 - p2) + (p1 - p2) := by ring
+    rw [e1]
+    have a1 := abs_le.1 (sn p1); have a2 := abs_le.1 (sn p2); have a3 := abs_le.1 h
+    rw [abs_le]; constructor <;> linarith [a1.1, a1.2, a2.1, a2.2, a3.1, a3.2]
+  simp only [inplane, absv_eq_abs]
+  rw [if_neg (not_lt.2 (le_trans key he))]
+  exact ⟨abs_nonneg _, key⟩
+
+/-- **one unit vector per orientation**: the output has as many rows as the input, row `i` is computed from input row `i`
+alone (its own norm), and is a unit vector. (False for the Frobenius-norm variant of defect D06, whose rows depend on
+the whole batch: `normals_asis_not_unit`.) -/
+theorem normals_one_per_orientation (L : Libm α) (hL : SqrtSpec L) (pts : List (V3 α)) (h : ∀ p ∈ pts, V3.normSq p ≠ 0) :
+    (normalsRowwise L pts).length = pts.length
+    ∧ ∀ i (h1 : i < (normalsRowwise L pts).length) (h2 : i < pts.length),
+        (normalsRowwise L pts)[i] = scale pts[i] (L.sqrt (V3.normSq pts[i]))
+        ∧ V3.normSq (normalsRowwise L pts)[i] = 1 := by
+  refine ⟨by simp [normalsRowwise], fun i h1 h2 => ?_⟩
+  have e : (normalsRowwise L pts)[i] = scale pts[i] (L.sqrt (V3.normSq pts[i])) := by simp [normalsRowwise]
+  refine ⟨e, ?_⟩
+  rw [e]
+  exact normSq_scale _ _ (hL.mul_self _ (V3.normSq_nonneg _)) (h _ (List.getElem_mem h2))
 
 /-- every returned row is a unit vector, for batches of ANY size -/
 theorem normals_rowwise_unit (L : Libm α) (hL : SqrtSpec L) (pts : List (V3 α))
@@ -329,14 +547,70 @@ theorem n2e_zaxis (L : Libm α) (hL : SqrtSpec L) (n : V3 α) (hn : V3.normSq n 
     · field_simp; linear_combination -hrho
     · ext <;> simp <;> field_simp
 
-/-- verified checker: when `checkMetric` answers true on the implementation's numbers, the metric
-clauses hold for them up to the stated slack -/
-theorem checkMetric_sound (o : MetricObs α) (h : checkMetric o = (true, true, true, true, true)) :
-    (0 ≤ o.dab ∧ o.dab ≤ 180) ∧ (0 ≤ o.dba ∧ o.dba ≤ 180) ∧ (0 ≤ o.dac ∧ o.dac ≤ 180) ∧ (0 ≤ o.dbc ∧ o.dbc ≤ 180)
+/-- **normals of ANY length**: the normalised normal — and with it every angle `normals_to_euler_angles` returns — depends
+on the direction of the input only: scaling the normal by any `k > 0` changes nothing. (This is the clause binary64
+arithmetic cannot keep once `x² + y² + z²` leaves the range of normal doubles, |n| ≳ 1.3e154 or ≲ 1.5e-154: known
+finding C06-K1, where the code's `np.linalg.norm` overflows to `inf` or underflows to 0.) -/
+theorem n2e_scale_invariant (L : Libm α) (hL : SqrtSpec L) (n : V3 α) (hn : V3.normSq n ≠ 0) (k : α) (hk : 0 < k) :
+    scale (V3.smul k n) (L.sqrt (V3.normSq (V3.smul k n))) = scale n (L.sqrt (V3.normSq n))
+    ∧ n2eCS L (V3.smul k n) = n2eCS L n := by
+  have h0 := V3.normSq_nonneg n
+  have hr := hL.ne_zero h0 hn
+  have hs : L.sqrt (V3.normSq (V3.smul k n)) = k * L.sqrt (V3.normSq n) := by
+    have e : V3.normSq (V3.smul k n) = k * k * V3.normSq n := by
+      simp only [V3.normSq, V3.dot, V3.smul]; ring
+    have h1 : 0 ≤ k * k * V3.normSq n := mul_nonneg (mul_self_nonneg k) h0
+    have a := hL.mul_self _ h1
+    have b := hL.mul_self _ h0
+    have na := hL.nonneg (k * k * V3.normSq n)
+    have nb := hL.nonneg (V3.normSq n)
+    rw [e]
+    have hz : (L.sqrt (k * k * V3.normSq n) - k * L.sqrt (V3.normSq n))
+        * (L.sqrt (k * k * V3.normSq n) + k * L.sqrt (V3.normSq n)) = 0 := by
+      linear_combination a - k * k * b
+    have hp : 0 < k * L.sqrt (V3.normSq n) := mul_pos hk (lt_of_le_of_ne nb (Ne.symm hr))
+    rcases mul_eq_zero.1 hz with h | h
+    · linarith
+    · linarith
+  have hu : scale (V3.smul k n) (L.sqrt (V3.normSq (V3.smul k n))) = scale n (L.sqrt (V3.normSq n)) := by
+    rw [hs]
+    have hk' : k ≠ 0 := hk.ne'
+    ext <;> simp only [scale, V3.smul] <;> field_simp
+  refine ⟨hu, ?_⟩
+  simp only [n2eCS, hu]
+
+/-- verified checker: `checkMetric` answers true on the implementation's numbers EXACTLY when every metric clause holds
+for them up to the stated slack: all six distances in [0, 180], symmetry, triangle inequality, left and right invariance -/
+theorem checkMetric_sound (o : MetricObs α) :
+    checkMetric o = (true, true, true, true, true) ↔
+    ((0 ≤ o.dab ∧ o.dab ≤ 180) ∧ (0 ≤ o.dba ∧ o.dba ≤ 180) ∧ (0 ≤ o.dac ∧ o.dac ≤ 180) ∧ (0 ≤ o.dbc ∧ o.dbc ≤ 180)
+      ∧ (0 ≤ o.dl ∧ o.dl ≤ 180) ∧ (0 ≤ o.dr ∧ o.dr ≤ 180))
     ∧ |o.dab - o.dba| ≤ o.tol ∧ o.dac ≤ o.dab + o.dbc + o.tol ∧ |o.dl - o.dab| ≤ o.tol ∧ |o.dr - o.dab| ≤ o.tol := by
-  simp only [checkMetric, inRange, near, Prod.mk.injEq, Bool.and_eq_true, decide_eq_true_eq] at h
-  obtain ⟨⟨⟨⟨⟨⟨a, b⟩, c⟩, d⟩, _⟩, _⟩, s, t, l, r⟩ := h
-  refine ⟨a, b, c, d, abs_le.2 ⟨by linarith [s.2], s.1⟩, t, abs_le.2 ⟨by linarith [l.2], l.1⟩, abs_le.2 ⟨by linarith [r.2], r.1⟩⟩
+  simp only [checkMetric, inRange, near, Prod.mk.injEq, Bool.and_eq_true, decide_eq_true_eq, abs_le]
+  constructor
+  · rintro ⟨⟨⟨⟨⟨⟨a, b⟩, c⟩, d⟩, e⟩, f⟩, s, t, l, r⟩
+    exact ⟨⟨a, b, c, d, e, f⟩, ⟨by linarith [s.2], s.1⟩, t, ⟨by linarith [l.2], l.1⟩, ⟨by linarith [r.2], r.1⟩⟩
+  · rintro ⟨⟨a, b, c, d, e, f⟩, s, t, l, r⟩
+    exact ⟨⟨⟨⟨⟨⟨a, b⟩, c⟩, d⟩, e⟩, f⟩, ⟨s.2, by linarith [s.1]⟩, t, ⟨l.2, by linarith [l.1]⟩, ⟨r.2, by linarith [r.1]⟩⟩
+
+/-- each component of the checker's answer decides its own clause (what `judge` reads off the driver's reply) -/
+theorem checkMetric_components (o : MetricObs α) :
+    ((checkMetric o).1 = true ↔ ((0 ≤ o.dab ∧ o.dab ≤ 180) ∧ (0 ≤ o.dba ∧ o.dba ≤ 180) ∧ (0 ≤ o.dac ∧ o.dac ≤ 180)
+        ∧ (0 ≤ o.dbc ∧ o.dbc ≤ 180) ∧ (0 ≤ o.dl ∧ o.dl ≤ 180) ∧ (0 ≤ o.dr ∧ o.dr ≤ 180)))
+    ∧ ((checkMetric o).2.1 = true ↔ |o.dab - o.dba| ≤ o.tol)
+    ∧ ((checkMetric o).2.2.1 = true ↔ o.dac ≤ o.dab + o.dbc + o.tol)
+    ∧ ((checkMetric o).2.2.2.1 = true ↔ |o.dl - o.dab| ≤ o.tol)
+    ∧ ((checkMetric o).2.2.2.2 = true ↔ |o.dr - o.dab| ≤ o.tol) := by
+  simp only [checkMetric, inRange, near, Bool.and_eq_true, decide_eq_true_eq, abs_le]
+  refine ⟨⟨?_, ?_⟩, ⟨?_, ?_⟩, trivial, ⟨?_, ?_⟩, ⟨?_, ?_⟩⟩
+  · rintro ⟨⟨⟨⟨⟨a, b⟩, c⟩, d⟩, e⟩, f⟩; exact ⟨a, b, c, d, e, f⟩
+  · rintro ⟨a, b, c, d, e, f⟩; exact ⟨⟨⟨⟨⟨a, b⟩, c⟩, d⟩, e⟩, f⟩
+  · rintro ⟨s1, s2⟩; exact ⟨by linarith, s1⟩
+  · rintro ⟨s1, s2⟩; exact ⟨s2, by linarith⟩
+  · rintro ⟨s1, s2⟩; exact ⟨by linarith, s1⟩
+  · rintro ⟨s1, s2⟩; exact ⟨s2, by linarith⟩
+  · rintro ⟨s1, s2⟩; exact ⟨by linarith, s1⟩
+  · rintro ⟨s1, s2⟩; exact ⟨s2, by linarith⟩
 end field
 
 
@@ -442,5 +716,23 @@ example : V3.normSq (⟨2, 0, 0⟩ : V3 ℝ) ≠ 0 := by simp [V3.normSq, V3.dot
 example : checkMetric ({ dab := 30, dba := 30, dac := 50, dbc := 40, dl := 30, dr := 30, tol := 0 } : MetricObs ℚ)
     = (true, true, true, true, true) := by
   simp only [checkMetric, inRange, near]; norm_num
+
+/-- an unsupported `rotation_type` (hypothesis of `compareRotations_unsupported`) -/
+example : "inplane_distance" ∉ ["all", "angular_distance", "cone_distance", "in_plane_distance"] := by decide
+/-- `inplane_le_of_close`: first Euler angles 1e-10 apart, tol = 1e-11 -/
+example : |(30 : ℚ) - (30 + 1/10000000000)| ≤ 1/10000000000 ∧ (1/10000000000 : ℚ) + 2 * (1/100000000000) ≤ 180 := by
+  constructor
+  · rw [abs_le]; constructor <;> norm_num
+  · norm_num
+/-- `n2e_scale_invariant` / `normals_one_per_orientation`: a normal of non-zero length and a positive factor (1e160 as a rational) -/
+example : V3.normSq (⟨1, 2, 2⟩ : V3 ℝ) ≠ 0 ∧ (0 : ℝ) < 10 ^ 160 := by
+  constructor
+  · simp [V3.normSq, V3.dot]; norm_num
+  · positivity
+/-- `angDistBatch_spec`: batches of different size -/
+example : ([qz (1 : ℝ) 0, qz 1 0] : List (Q4 ℝ)).length ≠ ([qz 1 0] : List (Q4 ℝ)).length := by decide
+/-- `absDot_clamp` is not vacuous where it matters: a "unit" quaternion whose rounded dot product exceeds 1 is clamped to 1 -/
+example : absDot (⟨0, 0, 0, 1 + 1/4503599627370496⟩ : Q4 ℚ) ⟨0, 0, 0, 1⟩ = 1 := by
+  simp only [absDot, absv, qdot]; norm_num
 
 end CryoCat.C06
